@@ -54,6 +54,46 @@ def children_family(interp: Interp, c: Lin, b: Any):
     return rets, raises
 
 
+def decode_defects(interp: Interp, e: Lin, n_faces: int) -> List[str]:
+    """Definite reasons why the id form `e` (an element of an enumeration, loop variables symbolic) is not the id of a cell:
+    `deserialize(e)` raises on a decided path, or indexes the face table outside 0..n-1 for a value of the loop variables that is
+    exhibited.  An empty list says nothing (the decode may be outside what the interpreter follows)."""
+    from .compact_model import find_valuation
+    out: List[str] = []
+    try:
+        douts = interp.run_function(SER, "deserialize", [e])
+    except (Budget, _Unmodelled):
+        return out
+    for o in douts:
+        if _opaque_path(o):
+            continue
+        if o.kind == "raise" and not o.state.path:
+            out.append(f"deserialize raises {_exc(o.value)} for it")
+        for kind, payload in o.state.effects:
+            if kind != "table-index-range":
+                continue
+            _name, idx, _rng, _node = payload
+            if not isinstance(idx, Lin) or idx.has_opaque():
+                continue
+            conds = [(cnd, t) for cnd, t, _ in o.state.path]
+            forms = [idx] + [x for cnd, t in conds for x in (cnd.left, cnd.right)]
+
+            def pred(vals, conds=conds):
+                for i, (cnd, t) in enumerate(conds):
+                    l, r = vals[1 + 2 * i], vals[2 + 2 * i]
+                    if {"==": l == r, "!=": l != r, "<": l < r, "<=": l <= r, ">": l > r, ">=": l >= r}[cnd.op] != t:
+                        return False
+                return not (0 <= vals[0] < n_faces)
+            try:
+                w_ = find_valuation(forms, pred)
+            except Exception:
+                w_ = None
+            if w_ is not None:
+                vals, point = w_
+                out.append(f"its face index {idx} is {vals[0]} at {point}: outside the face table 0..{n_faces - 1}")
+    return out
+
+
 class Setup:
     def __init__(self, ctx):
         self.ctx = ctx
@@ -173,6 +213,8 @@ def check_pair(ctx, su: Setup, a: int, b: int):
             else:
                 ctx.ob("C06.1", f"{tag}: cell_to_parent(child, {a}) has {len(pouts)} outcomes", core.VIOLATED if bad else core.UNDECIDED,
                        where, "; ".join(f"{o.kind} {_exc(o.value) if o.kind == 'raise' else o.value} on [{describe_path(o.state)}]" for o in pouts[:3]))
+        for why in decode_defects(interp, e, su.n):
+            ctx.bad("C06.1", f"{tag}: a listed child is not the id of a cell", where, f"child form {e}: {why}")
         # decode for the distinctness argument
         douts = interp.run_function(SER, "deserialize", [e])
         cell = douts[0].value if len(douts) == 1 and douts[0].kind == "return" and isinstance(douts[0].value, CellV) else None
@@ -323,7 +365,25 @@ def check_parent(ctx, su: Setup, r: int):
         outs = interp.run_function(SER, "cell_to_parent", [x, Lin.of(sym)])
         rets = [o for o in outs if o.kind == "return"]
         if rets and any(_opaque_path(o) for o in rets):
-            ctx.unk("C06.5", f"{Q}.cell_to_parent(res {r}, target {name})", core.loc(SER, rets[0].node), "a return on a path whose condition is not decided")
+            # the guard is not followed for a generic target: try the nearest concrete ones (a return there is a witness)
+            probes = [r + 1, r + 2, consts.MAX] if name.startswith("finer") else [-2, -3]
+            hit = None
+            for a_ in probes:
+                if name.startswith("finer") and not (r < a_ <= consts.MAX):
+                    continue
+                try:
+                    pouts = interp.run_function(SER, "cell_to_parent", [x, Lin(a_)])
+                except (Budget, _Unmodelled):
+                    continue
+                prets = [o for o in pouts if o.kind == "return" and not o.state.path]
+                if prets and len(prets) == len(pouts):
+                    hit = (a_, prets[0])
+                    break
+            if hit is not None:
+                ctx.bad("C06.5", f"{Q}.cell_to_parent(res {r}, target {name}) returns a cell", core.loc(SER, hit[1].node),
+                        f"cell_to_parent(cell of resolution {r}, {hit[0]}) returns {hit[1].value} instead of raising")
+            else:
+                ctx.unk("C06.5", f"{Q}.cell_to_parent(res {r}, target {name})", core.loc(SER, rets[0].node), "a return on a path whose condition is not decided")
         elif rets:
             ctx.bad("C06.5", f"{Q}.cell_to_parent(res {r}, target {name}) returns a cell", core.loc(SER, rets[0].node),
                     f"path [{describe_path(rets[0].state)}] returns {rets[0].value} instead of raising")
@@ -337,7 +397,23 @@ def check_children_guards(ctx, su: Setup, a: int):
     for name, sym in (("coarser than the cell", Sym("b", None, a - 1)), ("above MAX_RESOLUTION", Sym("b", consts.MAX + 1, None))):
         rets, raises = children_family(interp, c, Lin.of(sym))
         if rets and any(_opaque_path(o) for o in rets):
-            ctx.unk("C06.5", f"{Q}.cell_to_children(res {a}, target {name})", core.loc(SER, rets[0].node), "a return on a path whose condition is not decided")
+            probes = [a - 1, a - 2, -1] if name.startswith("coarser") else [consts.MAX + 1, consts.MAX + 2]
+            hit = None
+            for b_ in probes:
+                if name.startswith("coarser") and not (-2 <= b_ < a):
+                    continue
+                try:
+                    prets_, praises_ = children_family(interp, c, Lin(b_))
+                except (Budget, _Unmodelled):
+                    continue
+                if prets_ and not praises_ and all(not o.state.path for o in prets_):
+                    hit = (b_, prets_[0])
+                    break
+            if hit is not None:
+                ctx.bad("C06.5", f"{Q}.cell_to_children(res {a}, target {name}) returns cells", core.loc(SER, hit[1].node),
+                        f"cell_to_children(cell of resolution {a}, {hit[0]}) returns a list instead of raising")
+            else:
+                ctx.unk("C06.5", f"{Q}.cell_to_children(res {a}, target {name})", core.loc(SER, rets[0].node), "a return on a path whose condition is not decided")
         elif rets:
             ctx.bad("C06.5", f"{Q}.cell_to_children(res {a}, target {name}) returns cells", core.loc(SER, rets[0].node),
                     f"path [{describe_path(rets[0].state)}] returns instead of raising")
